@@ -21,10 +21,10 @@ import urllib.parse
 
 from vf import core
 
-# RequestHandler.prepare raises tornado.httpclient.HTTPError(403) for foreign Sec-Fetch-Site values; tornado.web turns
-# that into a 500 (see findings_proposed/C46.md).  Set VERIF_C46_REPAIRED=1 (or flip the default) once it raises
-# tornado.web.HTTPError: the MODEL then predicts 403 (drift bookkeeping only; the monitor is unaffected).
-REPAIRED = os.environ.get("VERIF_C46_REPAIRED", "0") == "1"
+# RequestHandler.prepare used to raise tornado.httpclient.HTTPError(403), which tornado.web answers with 500; repaired
+# in /repo commit 94d6b06b5 (tornado.web.HTTPError).  The MODEL constant PrepareStatus follows: 403 (repaired, default)
+# or 500 (VERIF_C46_REPAIRED=0, to replay the old behaviour; drift bookkeeping only, the monitor is unaffected).
+REPAIRED = os.environ.get("VERIF_C46_REPAIRED", "1") == "1"
 
 STD = ("GET", "HEAD", "POST", "DELETE", "PATCH", "PUT", "OPTIONS")
 SAFE = ("GET", "HEAD", "OPTIONS")
